@@ -27,6 +27,7 @@
 
 #include <atomic>
 #include <cstddef>
+#include <cstdint>
 #include <memory>
 #include <new>
 #include <type_traits>
@@ -184,17 +185,21 @@ namespace pika::concurrency::detail {
 
         node* alloc_node(node* lptr, node* rptr, T const& v, tag_t ltag = 0, tag_t rtag = 0)
         {
+            PIKA_VERIF_POINT("dq.pt", this, 7, 0);
             node* chunk = pool_.allocate();
             if (chunk == nullptr) { throw std::bad_alloc(); }
             new (chunk) node(lptr, rptr, v, ltag, rtag);
+            PIKA_VERIF_POST("dq.alloc", this, reinterpret_cast<std::uintptr_t>(chunk), 0);
             return chunk;
         }
 
         node* alloc_node(node* lptr, node* rptr, T&& v, tag_t ltag = 0, tag_t rtag = 0)
         {
+            PIKA_VERIF_POINT("dq.pt", this, 7, 0);
             node* chunk = pool_.allocate();
             if (chunk == nullptr) { throw std::bad_alloc(); }
             new (chunk) node(lptr, rptr, std::move(v), ltag, rtag);
+            PIKA_VERIF_POST("dq.alloc", this, reinterpret_cast<std::uintptr_t>(chunk), 0);
             return chunk;
         }
 
@@ -202,6 +207,8 @@ namespace pika::concurrency::detail {
         {
             if (n != nullptr)
             {
+                PIKA_VERIF_POINT("dq.pt", this, 8, 0);
+                PIKA_VERIF_POST("dq.free", this, reinterpret_cast<std::uintptr_t>(n), 0);
                 n->~node();
                 pool_.deallocate(n);
             }
@@ -211,26 +218,38 @@ namespace pika::concurrency::detail {
         {
             // Get the right node of the leftmost pointer held by lrs and its ABA
             // tag (tagged_ptr).
+            PIKA_VERIF_POINT("dq.pt", this, 3, 0);
             node_pointer prev = lrs.get_left_ptr()->right.load(std::memory_order_acquire);
+            PIKA_VERIF_POST("dq.rd", this, reinterpret_cast<std::uintptr_t>(prev.get_ptr()), prev.get_tag());
 
+            PIKA_VERIF_POINT("dq.pt", this, 2, 0);
+            PIKA_VERIF_POST("dq.chk", this, anchor_ == lrs, 0);
             if (anchor_ != lrs) return;
 
             // Get the left node of prev and its tag (again, a tuple represented by
             // a tagged_ptr).
+            PIKA_VERIF_POINT("dq.pt", this, 3, 0);
             node_pointer prevnext = prev.get_ptr()->left.load(std::memory_order_acquire);
+            PIKA_VERIF_POST("dq.rd", this, reinterpret_cast<std::uintptr_t>(prevnext.get_ptr()), prevnext.get_tag());
 
             // Check if prevnext is equal to r.
             if (prevnext.get_ptr() != lrs.get_left_ptr())
             {
+                PIKA_VERIF_POINT("dq.pt", this, 2, 0);
+                PIKA_VERIF_POST("dq.chk", this, anchor_ == lrs, 0);
                 if (anchor_ != lrs) return;
 
                 // Attempt the CAS, incrementing the tag to protect from the ABA
                 // problem.
+                PIKA_VERIF_POINT("dq.pt", this, 4, 0);
+                PIKA_VERIF_POST("dq.lcas", this, prev.get_ptr()->left.load() == prevnext, 0);
                 if (!prev.get_ptr()->left.compare_exchange_strong(
                         prevnext, node_pointer(lrs.get_left_ptr(), prevnext.get_tag() + 1)))
                     return;
             }
             // Try to update the anchor, modifying the status and ABA tag.
+            PIKA_VERIF_POINT("dq.pt", this, 5, 0);
+            PIKA_VERIF_POST("dq.cas", this, anchor_ == lrs, 0);
             anchor_.cas(lrs,
                 anchor_pair(
                     lrs.get_left_ptr(), lrs.get_right_ptr(), stable, lrs.get_right_tag() + 1));
@@ -240,26 +259,38 @@ namespace pika::concurrency::detail {
         {
             // Get the left node of the rightmost pointer held by lrs and its ABA
             // tag (tagged_ptr).
+            PIKA_VERIF_POINT("dq.pt", this, 3, 0);
             node_pointer prev = lrs.get_right_ptr()->left.load(std::memory_order_acquire);
+            PIKA_VERIF_POST("dq.rd", this, reinterpret_cast<std::uintptr_t>(prev.get_ptr()), prev.get_tag());
 
+            PIKA_VERIF_POINT("dq.pt", this, 2, 0);
+            PIKA_VERIF_POST("dq.chk", this, anchor_ == lrs, 0);
             if (anchor_ != lrs) return;
 
             // Get the right node of prev and its tag (again, a tuple represented
             // by a tagged_ptr).
+            PIKA_VERIF_POINT("dq.pt", this, 3, 0);
             node_pointer prevnext = prev.get_ptr()->right.load(std::memory_order_acquire);
+            PIKA_VERIF_POST("dq.rd", this, reinterpret_cast<std::uintptr_t>(prevnext.get_ptr()), prevnext.get_tag());
 
             // Check if prevnext is equal to r.
             if (prevnext.get_ptr() != lrs.get_right_ptr())
             {
+                PIKA_VERIF_POINT("dq.pt", this, 2, 0);
+                PIKA_VERIF_POST("dq.chk", this, anchor_ == lrs, 0);
                 if (anchor_ != lrs) return;
 
                 // Attempt the CAS, incrementing the tag to protect from the ABA
                 // problem.
+                PIKA_VERIF_POINT("dq.pt", this, 4, 0);
+                PIKA_VERIF_POST("dq.lcas", this, prev.get_ptr()->right.load() == prevnext, 0);
                 if (!prev.get_ptr()->right.compare_exchange_strong(
                         prevnext, node_pointer(lrs.get_right_ptr(), prevnext.get_tag() + 1)))
                     return;
             }
             // Try to update the anchor, modifying the status and ABA tag.
+            PIKA_VERIF_POINT("dq.pt", this, 5, 0);
+            PIKA_VERIF_POST("dq.cas", this, anchor_ == lrs, 0);
             anchor_.cas(lrs,
                 anchor_pair(
                     lrs.get_left_ptr(), lrs.get_right_ptr(), stable, lrs.get_right_tag() + 1));
@@ -313,6 +344,7 @@ namespace pika::concurrency::detail {
         // Complexity: O(Processes)
         bool push_left(T data)
         {
+            PIKA_VERIF_POST("dq.op", this, 0, 0);
             // Allocate the new node which we will be inserting.
             node* n = alloc_node(nullptr, nullptr, std::move(data));
 
@@ -322,7 +354,11 @@ namespace pika::concurrency::detail {
             while (true)
             {
                 // Load the anchor.
+                PIKA_VERIF_POINT("dq.pt", this, 1, 0);
                 anchor_pair lrs = anchor_.lrs(std::memory_order_relaxed);
+                PIKA_VERIF_POST("dq.ld", this, reinterpret_cast<std::uintptr_t>(lrs.get_left_ptr()),
+                    reinterpret_cast<std::uintptr_t>(lrs.get_right_ptr()));
+                PIKA_VERIF_POST("dq.ldt", this, lrs.get_left_tag(), lrs.get_right_tag());
 
                 // Check if the deque is empty.
                 // FIXME: Should we check both pointers here?
@@ -331,6 +367,8 @@ namespace pika::concurrency::detail {
                     // If the deque is empty, we simply install a new anchor which
                     // points to the new node as both its leftmost and rightmost
                     // element.
+                    PIKA_VERIF_POINT("dq.pt", this, 5, 0);
+                    PIKA_VERIF_POST("dq.cas", this, anchor_ == lrs, 0);
                     if (anchor_.cas(
                             lrs, anchor_pair(n, n, lrs.get_left_tag(), lrs.get_right_tag() + 1)))
                         return true;
@@ -341,13 +379,17 @@ namespace pika::concurrency::detail {
                 {
                     // Make the right pointer on our new node refer to the current
                     // leftmost node.
+                    PIKA_VERIF_POINT("dq.pt", this, 6, 0);
                     n->right.store(node_pointer(lrs.get_left_ptr()));
+                    PIKA_VERIF_POST("dq.link", this, reinterpret_cast<std::uintptr_t>(n), reinterpret_cast<std::uintptr_t>(lrs.get_left_ptr()));
 
                     // Now we want to make the anchor point to our new node as the
                     // leftmost node. We change the state to lpush as the deque
                     // will become unstable if this operation succeeds.
                     anchor_pair new_anchor(n, lrs.get_right_ptr(), lpush, lrs.get_right_tag() + 1);
 
+                    PIKA_VERIF_POINT("dq.pt", this, 5, 0);
+                    PIKA_VERIF_POST("dq.cas", this, anchor_ == lrs, 0);
                     if (anchor_.cas(lrs, new_anchor))
                     {
                         stabilize_left(new_anchor);
@@ -368,6 +410,7 @@ namespace pika::concurrency::detail {
         // Complexity: O(Processes)
         bool push_right(T data)
         {
+            PIKA_VERIF_POST("dq.op", this, 1, 0);
             // Allocate the new node which we will be inserting.
             node* n = alloc_node(nullptr, nullptr, std::move(data));
 
@@ -377,7 +420,11 @@ namespace pika::concurrency::detail {
             while (true)
             {
                 // Load the anchor.
+                PIKA_VERIF_POINT("dq.pt", this, 1, 0);
                 anchor_pair lrs = anchor_.lrs(std::memory_order_relaxed);
+                PIKA_VERIF_POST("dq.ld", this, reinterpret_cast<std::uintptr_t>(lrs.get_left_ptr()),
+                    reinterpret_cast<std::uintptr_t>(lrs.get_right_ptr()));
+                PIKA_VERIF_POST("dq.ldt", this, lrs.get_left_tag(), lrs.get_right_tag());
 
                 // Check if the deque is empty.
                 // FIXME: Should we check both pointers here?
@@ -386,6 +433,8 @@ namespace pika::concurrency::detail {
                     // If the deque is empty, we simply install a new anchor which
                     // points to the new node as both its leftmost and rightmost
                     // element.
+                    PIKA_VERIF_POINT("dq.pt", this, 5, 0);
+                    PIKA_VERIF_POST("dq.cas", this, anchor_ == lrs, 0);
                     if (anchor_.cas(
                             lrs, anchor_pair(n, n, lrs.get_left_tag(), lrs.get_right_tag() + 1)))
                         return true;
@@ -396,13 +445,17 @@ namespace pika::concurrency::detail {
                 {
                     // Make the left pointer on our new node refer to the current
                     // rightmost node.
+                    PIKA_VERIF_POINT("dq.pt", this, 6, 0);
                     n->left.store(node_pointer(lrs.get_right_ptr()));
+                    PIKA_VERIF_POST("dq.link", this, reinterpret_cast<std::uintptr_t>(n), reinterpret_cast<std::uintptr_t>(lrs.get_right_ptr()));
 
                     // Now we want to make the anchor point to our new node as the
                     // leftmost node. We change the state to lpush as the deque
                     // will become unstable if this operation succeeds.
                     anchor_pair new_anchor(lrs.get_left_ptr(), n, rpush, lrs.get_right_tag() + 1);
 
+                    PIKA_VERIF_POINT("dq.pt", this, 5, 0);
+                    PIKA_VERIF_POST("dq.cas", this, anchor_ == lrs, 0);
                     if (anchor_.cas(lrs, new_anchor))
                     {
                         stabilize_right(new_anchor);
@@ -421,11 +474,16 @@ namespace pika::concurrency::detail {
         // Complexity: O(Processes)
         bool pop_left(T& r)
         {
+            PIKA_VERIF_POST("dq.op", this, 2, 0);
             // Loop until we either pop an element or learn that the deque is empty.
             while (true)
             {
                 // Load the anchor.
+                PIKA_VERIF_POINT("dq.pt", this, 1, 0);
                 anchor_pair lrs = anchor_.lrs(std::memory_order_relaxed);
+                PIKA_VERIF_POST("dq.ld", this, reinterpret_cast<std::uintptr_t>(lrs.get_left_ptr()),
+                    reinterpret_cast<std::uintptr_t>(lrs.get_right_ptr()));
+                PIKA_VERIF_POST("dq.ldt", this, lrs.get_left_tag(), lrs.get_right_tag());
 
                 // Check if the deque is empty.
                 // FIXME: Should we check both pointers here?
@@ -435,6 +493,8 @@ namespace pika::concurrency::detail {
                 if (lrs.get_left_ptr() == lrs.get_right_ptr())
                 {
                     // Try to set both anchor pointer
+                    PIKA_VERIF_POINT("dq.pt", this, 5, 0);
+                    PIKA_VERIF_POST("dq.cas", this, anchor_ == lrs, 0);
                     if (anchor_.cas(lrs,
                             anchor_pair(
                                 nullptr, nullptr, lrs.get_left_tag(), lrs.get_right_tag() + 1)))
@@ -450,13 +510,19 @@ namespace pika::concurrency::detail {
                 else if (lrs.get_left_tag() == stable)
                 {
                     // Make sure the anchor hasn't changed since we loaded it.
+                    PIKA_VERIF_POINT("dq.pt", this, 2, 0);
+                    PIKA_VERIF_POST("dq.chk", this, anchor_ == lrs, 0);
                     if (anchor_ != lrs) continue;
 
                     // Get the leftmost nodes' right node.
+                    PIKA_VERIF_POINT("dq.pt", this, 3, 0);
                     node_pointer prev = lrs.get_left_ptr()->right.load(std::memory_order_acquire);
+                    PIKA_VERIF_POST("dq.rd", this, reinterpret_cast<std::uintptr_t>(prev.get_ptr()), prev.get_tag());
 
                     // Try to update the anchor to point to prev as the leftmost
                     // node.
+                    PIKA_VERIF_POINT("dq.pt", this, 5, 0);
+                    PIKA_VERIF_POST("dq.cas", this, anchor_ == lrs, 0);
                     if (anchor_.cas(lrs,
                             anchor_pair(prev.get_ptr(), lrs.get_right_ptr(), lrs.get_left_tag(),
                                 lrs.get_right_tag() + 1)))
@@ -481,11 +547,16 @@ namespace pika::concurrency::detail {
         // Complexity: O(Processes)
         bool pop_right(T& r)
         {
+            PIKA_VERIF_POST("dq.op", this, 3, 0);
             // Loop until we either pop an element or learn that the deque is empty.
             while (true)
             {
                 // Load the anchor.
+                PIKA_VERIF_POINT("dq.pt", this, 1, 0);
                 anchor_pair lrs = anchor_.lrs(std::memory_order_relaxed);
+                PIKA_VERIF_POST("dq.ld", this, reinterpret_cast<std::uintptr_t>(lrs.get_left_ptr()),
+                    reinterpret_cast<std::uintptr_t>(lrs.get_right_ptr()));
+                PIKA_VERIF_POST("dq.ldt", this, lrs.get_left_tag(), lrs.get_right_tag());
 
                 // Check if the deque is empty.
                 // FIXME: Should we check both pointers here?
@@ -495,6 +566,8 @@ namespace pika::concurrency::detail {
                 if (lrs.get_right_ptr() == lrs.get_left_ptr())
                 {
                     // Try to set both anchor pointer
+                    PIKA_VERIF_POINT("dq.pt", this, 5, 0);
+                    PIKA_VERIF_POST("dq.cas", this, anchor_ == lrs, 0);
                     if (anchor_.cas(lrs,
                             anchor_pair(
                                 nullptr, nullptr, lrs.get_left_tag(), lrs.get_right_tag() + 1)))
@@ -510,13 +583,19 @@ namespace pika::concurrency::detail {
                 else if (lrs.get_left_tag() == stable)
                 {
                     // Make sure the anchor hasn't changed since we loaded it.
+                    PIKA_VERIF_POINT("dq.pt", this, 2, 0);
+                    PIKA_VERIF_POST("dq.chk", this, anchor_ == lrs, 0);
                     if (anchor_ != lrs) continue;
 
                     // Get the rightmost nodes' left node.
+                    PIKA_VERIF_POINT("dq.pt", this, 3, 0);
                     node_pointer prev = lrs.get_right_ptr()->left.load(std::memory_order_acquire);
+                    PIKA_VERIF_POST("dq.rd", this, reinterpret_cast<std::uintptr_t>(prev.get_ptr()), prev.get_tag());
 
                     // Try to update the anchor to point to prev as the rightmost
                     // node.
+                    PIKA_VERIF_POINT("dq.pt", this, 5, 0);
+                    PIKA_VERIF_POST("dq.cas", this, anchor_ == lrs, 0);
                     if (anchor_.cas(lrs,
                             anchor_pair(lrs.get_left_ptr(), prev.get_ptr(), lrs.get_left_tag(),
                                 lrs.get_right_tag() + 1)))
